@@ -138,8 +138,8 @@ def h_calc_returns(n):
         S.check('mustfail:returns-undiscounted', S.eq(rets[0], S.Sum(rs)))
 
 
-def h_evaluate_on(sk, pmode, nsim, cap, seed):
-    mdp, v = M.make_mdp(sk, numeric='generic', nseed=seed)
+def h_evaluate_on(sk, pmode, nsim, cap, seed, gamma='sym'):
+    mdp, v = M.make_mdp(sk, numeric='generic', nseed=seed, **({} if gamma == 'sym' else dict(gamma=gamma)))     # 'one': the discount is exactly 1.0 (special-cased code paths)
     uses = []
     recorded = []
     with facades(uses):
@@ -285,6 +285,26 @@ def rt_deterministic(seed, n):
             s = nxt[(s, a)]
         out.append(dict(name='rt:evaluate_on:deterministic-case-equals-exact-evaluation-truncated-at-the-cap', ok=abs(ev.initial_value - G) < 1e-9,
                         witness=dict(nxt=repr(nxt), rew=repr(rew), choice=repr(choice), cap=cap, gamma=g, got=float(ev.initial_value), want=G)))
+        # per-visit returns: every roll-out is the same trajectory, so the reported value of a state is the mean reward-to-go over its visits
+        traj, s = [], 0
+        for t in range(cap):
+            if s == goal:
+                break
+            traj.append((s, choice[s], rew[(s, choice[s])]))
+            s = nxt[(s, choice[s])]
+        togo, acc = [0.0] * (len(traj) + 1), 0.0
+        for t in reversed(range(len(traj))):
+            acc = traj[t][2] + g * acc
+            togo[t] = acc
+        visits = {}
+        for t, (s_, a_, r_) in enumerate(traj):
+            visits.setdefault(s_, []).append(togo[t])
+        visits.setdefault(s, []).append(0.0)          # the final bare step
+        okv = set(ev.state_value.keys()) == set(visits) and all(abs(ev.state_value[x] - sum(y) / len(y)) < 1e-9 for x, y in visits.items())
+        oka = all(abs(ev.action_value[s_][a_] - sum(tg for tg, (s2, a2, _) in zip(togo, traj) if (s2, a2) == (s_, a_)) /
+                      max(1, sum(1 for (s2, a2, _) in traj if (s2, a2) == (s_, a_)))) < 1e-9 for (s_, a_, _) in traj)
+        out.append(dict(name='rt:evaluate_on:deterministic-case:state-and-action-values-are-mean-rewards-to-go-over-the-visits', ok=bool(okv and oka),
+                        witness=dict(nxt=repr(nxt), rew=repr(rew), choice=repr(choice), cap=cap, gamma=g, got=repr(dict(ev.state_value)), want=repr(visits))))
         out.append(dict(name='rt:evaluate_on:global-generator-untouched', ok=same_state, witness=dict(k=k)))
     return out
 
@@ -303,6 +323,7 @@ def tasks(tier, seed):
         for nsim in (1, 2):
             for cap in (1, 2):
                 T.append(Task('evaluate_on/%s/full/n%d/cap%d' % (sk.name, nsim, cap), h_evaluate_on, (sk, 'full', nsim, cap, seed), tier='B', max_paths=4000))
+        T.append(Task('evaluate_on/%s/full/n1/cap3/undiscounted' % sk.name, h_evaluate_on, (sk, 'full', 1, 3, seed, 'one'), tier='B', max_paths=4000))
     for n in ([0, 1, 2, 3, 5] + ([8] if tier == 'thorough' else [])):
         T.append(Task('calc_returns/n%d' % n, h_calc_returns, (n,), tier='B', expect_fail=('mustfail:returns-undiscounted',) if n >= 2 else ()))
     for sk in P.family(tier, seed):
